@@ -336,9 +336,11 @@ class Depacketizer(LiteXModule):
             fsm.act("UNALIGNED-DATA-COPY",
                 source.valid.eq(sink.valid | sink_d.last),
                 source.last.eq(sink.last | sink_d.last),
-                sink.ready.eq(source.ready),
+                sink.ready.eq(source.ready & ~sink_d.last),
                 source.data.eq(sink_d.data[header_leftover*8:]),
-                source.data[min((bytes_per_clk-header_leftover)*8, data_width-1):].eq(sink.data),
+                If(~sink_d.last,
+                    source.data[min((bytes_per_clk-header_leftover)*8, data_width-1):].eq(sink.data)
+                ),
                 If(fsm_from_idle,
                     source.valid.eq(sink_d.last),
                     sink.ready.eq(1),
